@@ -118,16 +118,22 @@ NodeT(F, p) == IF p = <<>> THEN "dir" ELSE IF p \in DOMAIN F THEN F[p].t ELSE "n
 (* the kernel does not either:                                             *)
 (*   pad  n extra slashes at the first separator (long names; a run of     *)
 (*        slashes is one separator)                                        *)
-(*   mem  [b, gap] where the NUL-terminated string lies in the caller's    *)
-(*        memory relative to a page boundary B: b = "static" (an ordinary  *)
-(*        buffer), "in" (inside a page), "end" (the NUL is the last byte   *)
-(*        before B), "one"/"mid"/"last" (B falls after the first byte / in *)
-(*        the middle / before the last byte), "nul" (only the NUL lies     *)
-(*        behind B); gap: the page after the one holding the NUL is not    *)
-(*        mapped.  The kernel reads the whole string wherever it lies, so  *)
-(*        must whoever presents it to the policy.  (A name is at most      *)
-(*        PATH_MAX - 1 = 4095 bytes: it can cross at most one 4 KiB        *)
-(*        boundary.)                                                       *)
+(*   mem  [b, gap, prot] where the NUL-terminated string lies in the       *)
+(*        caller's memory relative to a page boundary B: b = "static" (an  *)
+(*        ordinary buffer), "in" (inside a page), "end" (the NUL is the    *)
+(*        last byte before B), "one"/"mid"/"last" (B falls after the first *)
+(*        byte / in the middle / before the last byte), "nul" (only the    *)
+(*        NUL lies behind B); gap: the page after the one holding the NUL  *)
+(*        is not mapped; prot: protection of the page holding the NUL (for *)
+(*        a straddling string: of its tail page; the head page stays       *)
+(*        read-write): "rw", "w" (PROT_WRITE only: the kernel's own copy   *)
+(*        reads it, a foreign process_vm_readv does not) or "none".        *)
+(*        The kernel reads the whole string wherever it lies, so must      *)
+(*        whoever presents it to the policy; if the kernel cannot read it  *)
+(*        ("none") the call fails with EFAULT before anything is resolved. *)
+(*        (A name is at most PATH_MAX - 1 = 4095 bytes: it can cross at    *)
+(*        most one 4 KiB boundary.)                                        *)
+Unreadable(ps) == ps.mem.b # "static" /\ ps.mem.prot = "none"
 
 WellFormed(ps) ==
   /\ ~(~ps.abs /\ ps.comps # <<>> /\ ps.comps[1] = "")   \* would be absolute
